@@ -363,6 +363,16 @@ def check_c05(pid, tier):
     if len(cfgs) > cap:
         cfgs = rng.sample(cfgs, cap)
         ev.cov["exhaustive"] = False
+    # small families that are always run completely (every listing order)
+    for f, n in (("fanoutsum", None), ("finisher", 40 if tier == "quick" else None)):
+        got = []
+        for c in tlc.emit("SchedEmit", {"FAMILY": f}):
+            k = dict(c)
+            k["order"] = list(range(1, len(c["comps"]) + 1))
+            if jdump(k) not in base:
+                base[jdump(k)] = k
+                got.append(k)
+        cfgs += got if n is None or len(got) <= n else rng.sample(got, n)
     jobs, group = [], []
     for gi, c in enumerate(cfgs):
         n = len(c["comps"])
